@@ -17,6 +17,9 @@ type WindowNode struct {
 
 // Create a new  WindowNode, which windows data for a period of time and emits the window.
 func newWindowNode(et *ExecutingTask, n *pipeline.WindowNode, d NodeDiagnostic) (*WindowNode, error) {
+	if n.PeriodCount < 0 {
+		return nil, errors.New("window node periodCount must be greater than zero")
+	}
 	if n.Period == 0 && n.PeriodCount == 0 {
 		return nil, errors.New("window node must have either a non zero period or non zero period count")
 	}
